@@ -371,22 +371,42 @@ def encode_core(ap, obs_end):
                 ids.append(len(limits) - 1)
         return ids
     rlim = {p: add_limits(n) for p, n in ridx.items()}
-    out = [upper, len(rleaf)]
+    out = [upper, S, G, len(rleaf)]
     if not aligned(ap):
         raise NotCore("calendar not aligned to the resolution")
     for p, n in rleaf:
-        if n.get("tz") and False:
-            raise NotCore("tz")
-        work = [1 if working(ap, n, S + s * G) else 0 for s in range(upper + 1)]
         ls = []
         for k in range(len(p), 0, -1):
             ls += rlim[p[:k]]
-        out += [len(work)] + work + [len(ls)] + ls
+        if n.get("tz"):
+            # zone conversion is an oracle (zoneinfo): the calendar is passed as explicit per-slot flags
+            work = [1 if working(ap, n, S + s * G) else 0 for s in range(upper + 1)]
+            out += [0, len(work)] + work + [len(ls)] + ls
+        else:
+            # the calendar is computed INSIDE the Coq model (Model/Calendar.v) from the hours table and
+            # the blocked intervals
+            tbl = ap["shifts"][n["shift"]] if n.get("shift") else n.get("hours")
+            offs = [day_interval(a, b) for a, b in ap.get("vac", []) + ap.get("gleaves", [])]
+            offs += [day_interval(a, b) for a, b, _k in n.get("leaves", [])]
+            out += [1, 1 if tbl is not None else 0]
+            if tbl is not None:
+                merged = {}
+                for wd, l in tbl:
+                    merged.setdefault(wd, []).extend(l)
+                out.append(len(merged))
+                for wd, l in merged.items():
+                    out += [wd, len(l)]
+                    for (a, b), (c, d) in l:
+                        out += [a, b, c, d]
+            out.append(len(offs))
+            for lo, hi in offs:
+                out += [lo, hi]
+            out += [len(ls)] + ls
     tidx = task_index(ap)
     order = list(tidx)
     tnum = {p: i for i, p in enumerate(order)}
     tlim = {p: add_limits(n) for p, n in tidx.items()}
-    out += [S, G, len(limits)]
+    out += [len(limits)]
     for v, per, only in limits:
         out += [v, per, only]
     edges = all_edges(ap)
